@@ -212,6 +212,58 @@ def check_visit_seq(ctx, cfg):
         val_ok = ws and _from_call(a, ws[0].args[1], f)
         ok_ii = full_dest and slot_ok and some and bool(val_ok) and a.dominates(dest_next[0].bb, f.bb)
         det_ii = "destination = the builder's whole array (N slots): %s; per slot one next_element()?, Some(el) written into that slot: %s/%s; the loop asks for a slot before reading: %s" % (full_dest, slot_ok, bool(val_ok), a.dominates(dest_next[0].bb, f.bb) if dest_next else False)
+    if not fill:
+        # closure form: `build_iter.try_for_each(|dst| match seq.next_element() { Ok(Some(el)) => { dst.write(el); *position += 1; Continue } .. => Break })`
+        # - the driver asks for a slot first and hands it to the closure, which reads exactly one element and stores it into that slot; what the
+        # uncounted (Break) steps mean for the builder is C03.P / C04.P / C04.O's obligation (typestate: stop returns + a try_* driver)
+        from ..absint import State
+        from .c08 import count_on_paths
+        drv = [c for c in a.calls if c.fn == "core::iter::Iterator::try_for_each"]
+        itp = [c for c in a.calls if c.key == "IntrusiveArrayBuilder<$0,$1>::iter_position"]
+        if len(drv) == 1 and itp and itp[0].ret[0] == "A":
+            recv = drv[0].args[0]
+            if recv[0] == "P" and recv[3] is None and not recv[2].t:
+                recv = a.read_cell(State(drv[0].mem, drv[0].facts), recv[1], (), None)
+            itv = itp[0].ret[2][0]
+            full_dest = recv == itv and itv[:3] == ("V", "iter", "slice") and not itv[3][2].t and itv[3][3] == N
+            cv = drv[0].args[1]
+            cb = db.by_path.get(cv[1][1]) if cv[0] == "A" and isinstance(cv[1], tuple) and cv[1][0] == "closure" else None
+            slot_ok = val_ok = counted = False
+            if cb is not None:
+                ca = ctx.analysis(cfg, cb["key"])
+                nx = [c for c in ca.calls if c.fn == "serde::de::SeqAccess::next_element"]
+                ws = [c for c in ca.calls if c.fn == "core::mem::MaybeUninit::<T>::write"]
+                one = len(nx) == 1 and count_on_paths(ca, lambda c: c.fn == "serde::de::SeqAccess::next_element") == {1}
+                slot_ok = one and len(ws) == 1 and ws[0].args[0][0] == "P" and ws[0].args[0][1] == ("arg", 2) and not ws[0].args[0][2].t
+                val_ok = bool(ws) and bool(nx) and _from_call(ca, ws[0].args[1], nx[0]) and any(fa[0] == "variant" and fa[2] == 1 for fa in ws[0].facts)
+                from ..typestate import check_closure_protocol
+                role_, _okc, _d, info_ = check_closure_protocol(ca, Classifier(db))
+                counted = role_ == "builder" and not info_["normal_problems"]   # every storing step counts the slot (once), every other step stops the driver
+            ok_ii = bool(full_dest and slot_ok and val_ok and counted)
+            det_ii = "fill = try_for_each over the builder's whole array (N slots): %s; the closure reads exactly one element per slot it is handed: %s, stores the Some(el) it got into that slot: %s and counts it in the same step: %s" % (full_dest, slot_ok, val_ok, counted)
+    ext_ = [c for c in a.calls if c.key == "IntrusiveArrayBuilder<$0,$1>::extend"]
+    if not fill and len(ext_) == 1:
+        # extend form: `builder.extend(iter::from_fn(|| seq.next_element() as an Option))` - the crate's own fill (C07.Z: the destination is polled
+        # first, every item goes into the slot of that step and is counted, the source is dropped at its first None), fed by a source that reads
+        # exactly one element per poll and yields exactly what it read (an error parks itself and ends the source)
+        from .c08 import count_on_paths
+        e_ = ext_[0]
+        ff = [c for c in a.calls if c.fn == "core::iter::from_fn" and c.ret == e_.args[1]]
+        built = [m for m in a.calls if m.key == "IntrusiveArrayBuilder<$0,$1>::new"]
+        recv_ok = bool(built) and e_.args[0][0] == "P" and e_.args[0][1] == ("local", built[0].term["dest"]["l"]) and not e_.args[0][2].t
+        src_ok = val_ok = False
+        if len(ff) == 1:
+            cv = ff[0].args[0]
+            cb = db.by_path.get(cv[1][1]) if cv[0] == "A" and isinstance(cv[1], tuple) and cv[1][0] == "closure" else None
+            if cb is not None:
+                ca = ctx.analysis_inl(cfg, cb["key"], split=True)
+                nx = [c for c in ca.calls if c.fn == "serde::de::SeqAccess::next_element"]
+                src_ok = bool(nx) and count_on_paths(ca, lambda c: c.fn == "serde::de::SeqAccess::next_element") == {1}
+                none = lambda v: v[0] == "A" and isinstance(v[1], tuple) and v[1][:2] == ("adt", "core::option::Option") and v[1][2] == 0
+                val_ok = bool(ca.returns) and all(none(r["val"]) or any(_from_call(ca, r["val"], x) for x in nx) for r in ca.returns)
+        others = [c for c in nexts if not a.dominates(e_.bb, c.bb)]
+        ok_ii = bool(recv_ok and src_ok and val_ok and not others)
+        det_ii = "fill = builder.extend(from_fn(cl)) on the builder over the destination: %s; the source reads exactly one element per poll: %s and yields that element or ends: %s; no element read outside it before: %s" % (recv_ok, src_ok, val_ok, not others)
     ctx.ob(rule, K_VIS + "#fill", ok_ii, det_ii, at=b["at"], cfg=cfg)
     raw_write_discipline(ctx, cfg, b, "C17.W")
     # (iii) judged per path on the tree-shaped code after the fill loop (helpers expanded): every Ok(array) is built with the builder full
@@ -234,6 +286,10 @@ def check_visit_seq(ctx, cfg):
         if fin and fin[0].args[0][0] == "A" and adtp:
             pv = fin[0].args[0][2][owners[adtp[0]]["names"].index("position")]
             pos = pv[1] if pv[0] == "I" else None
+        elif fin and adtp and fin[0].args[0][0] == "V" and fin[0].args[0][1] == "cell@" and fin[0].args[0][2][0][1] == ():
+            # the builder as a whole after a call that may have changed it (extend): its position is that epoch's position cell
+            (base_, _p), ep_ = fin[0].args[0][2]
+            pos = Poly.atom(("cell@", ((base_, (owners[adtp[0]]["names"].index("position"),)), ep_)))
         full = pos is not None and at.prove(fs, "Eq", pos, N)
         if not full and fin:
             # position == N is not tested but follows: the fill loop runs over the builder's whole array, is left only when the
